@@ -95,6 +95,10 @@ type LoopSpec struct {
 }
 
 type Contract struct {
+	Locals     []string          // "name:type" of the function's locals in source order when the contract was written (govc locals)
+	CurLocals  []string          // the same list computed from the current source
+	Renames    map[string]string // locals of that list that were renamed since: old name -> current name (loop clauses only)
+	StaleLoopsOnly bool // only loop clauses are stale: pre/postconditions still serve callers
 	Stale      string // non-empty: the contract no longer fits the code (clause does not compile); the function is reported, not its package
 	PkgPath    string
 	Key        string // "Cipher", "Writer.Flush", "Parameters.Parse$1"
@@ -145,7 +149,7 @@ type ContractSet struct {
 	Errs  []string
 }
 
-var clauseKeywords = map[string]bool{"callsite": true, "invoke": true, "funcval": true, "impls": true, "cases": true, "func": true, "iface": true, "props": true, "requires": true, "ensures": true,
+var clauseKeywords = map[string]bool{"locals": true, "callsite": true, "invoke": true, "funcval": true, "impls": true, "cases": true, "func": true, "iface": true, "props": true, "requires": true, "ensures": true,
 	"assigns": true, "loop": true, "inline": true, "trusted": true, "lemma": true, "call": true, "unproved": true}
 
 // ParseContractFile reads the //@ lines of one contract file.
@@ -317,6 +321,8 @@ func ParseContractFile(path, pkgPath string, cs *ContractSet) {
 				for _, f := range strings.Fields(strings.ReplaceAll(rest, ",", " ")) {
 					cur.Inline[f] = true
 				}
+			case "locals":
+				cur.Locals = strings.Fields(rest)
 			case "callsite":
 				// callsite <callee> requires [label] <expr over the caller's parameters and function-level locals>
 				fs := strings.SplitN(rest, " ", 3)
@@ -669,6 +675,79 @@ func findFunc(pkg *packages.Package, key string) (fd *ast.FuncDecl, lit *ast.Fun
 }
 
 // loopsOf returns the for/range statements of a function body in source order (not descending into closures).
+// localsOf lists the local variables of a function body in source order as "name:type" (closures
+// excluded). Recorded in the contract file by `govc locals`; compared with the current list to
+// follow pure renames of the locals a loop invariant mentions.
+func (g *genCtx) localsOf(body *ast.BlockStmt, si *sigInfo) []string {
+	skip := map[*types.Var]bool{}
+	for _, p := range si.params {
+		skip[p] = true
+	}
+	for _, r := range si.results {
+		skip[r] = true
+	}
+	var out []string
+	ast.Inspect(body, func(n ast.Node) bool {
+		switch n := n.(type) {
+		case *ast.FuncLit:
+			return false
+		case *ast.Ident:
+			if v, ok := g.pkg.TypesInfo.Defs[n].(*types.Var); ok && !v.IsField() && !skip[v] && n.Name != "_" {
+				out = append(out, n.Name+":"+strings.ReplaceAll(g.typeStr(v.Type()), " ", ""))
+			}
+		}
+		return true
+	})
+	return out
+}
+
+// renamesOf maps recorded locals that no longer exist to current locals that were not recorded, when
+// for their type the two groups have the same size (matched in source order). Used for loop
+// invariants only: they are proof hints, so a wrong guess can only make a proof fail.
+func renamesOf(recorded, current []string) map[string]string {
+	split := func(x string) (string, string) {
+		i := strings.Index(x, ":")
+		if i < 0 {
+			return x, ""
+		}
+		return x[:i], x[i+1:]
+	}
+	curNames, recNames := map[string]bool{}, map[string]bool{}
+	for _, x := range current {
+		n, _ := split(x)
+		curNames[n] = true
+	}
+	for _, x := range recorded {
+		n, _ := split(x)
+		recNames[n] = true
+	}
+	gone, fresh := map[string][]string{}, map[string][]string{}
+	seen := map[string]bool{}
+	for _, x := range recorded {
+		n, t := split(x)
+		if !curNames[n] && !seen["r"+n] {
+			gone[t] = append(gone[t], n)
+			seen["r"+n] = true
+		}
+	}
+	for _, x := range current {
+		n, t := split(x)
+		if !recNames[n] && !seen["c"+n] {
+			fresh[t] = append(fresh[t], n)
+			seen["c"+n] = true
+		}
+	}
+	out := map[string]string{}
+	for t, g := range gone {
+		if f := fresh[t]; len(f) == len(g) {
+			for i := range g {
+				out[g[i]] = f[i]
+			}
+		}
+	}
+	return out
+}
+
 func loopsOf(body *ast.BlockStmt) []ast.Stmt {
 	var out []ast.Stmt
 	ast.Inspect(body, func(n ast.Node) bool {
@@ -818,6 +897,14 @@ func (g *genCtx) compileClauseX(c *Contract, cl *Clause, si *sigInfo, pos token.
 				}
 			}
 			_, obj := scope.LookupParent(n.Name, pos)
+			if obj == nil && cl.Kind == "invariant" || obj == nil && cl.Kind == "decreases" {
+				if nn, ok := c.Renames[n.Name]; ok {
+					if _, o2 := scope.LookupParent(nn, pos); o2 != nil {
+						n = &ast.Ident{Name: nn}
+						obj = o2
+					}
+				}
+			}
 			if obj == nil {
 				// may be a result name that is unnamed ("result")
 				return n
@@ -1184,23 +1271,35 @@ func GenerateWrappers(pkg *packages.Package, cs *ContractSet) (string, []string)
 	}
 	for _, c := range mine {
 		c.Pkg = pkg
-		if c.Stale != "" {
+		if c.Stale != "" && !c.StaleLoopsOnly {
 			continue
 		}
 		n0, b0 := len(g.errs), g.buf.Len()
-		g.genOne(c, mine)
+		g.genOne(c, mine, c.Stale != "")
 		if len(g.errs) > n0 && !c.IsIface && !c.Lemma && !c.External {
 			// the contract of one function does not fit the code any more: report that function, keep
-			// the rest of the package checkable
-			c.Stale = strings.Join(g.errs[n0:], "; ")
+			// the rest of the package checkable (and, when only loop clauses are affected, keep its
+			// pre/postconditions for its callers)
+			msgs := strings.Join(g.errs[n0:], "; ")
 			g.errs = g.errs[:n0]
 			g.buf.Truncate(b0)
+			if c.Stale == "" {
+				c.Stale = msgs
+				g.genOne(c, mine, true)
+				c.StaleLoopsOnly = len(g.errs) == n0
+				if !c.StaleLoopsOnly {
+					g.errs = g.errs[:n0]
+					g.buf.Truncate(b0)
+				}
+			} else {
+				c.StaleLoopsOnly = false
+			}
 		}
 	}
 	return g.finish()
 }
 
-func (g *genCtx) genOne(c *Contract, mine []*Contract) {
+func (g *genCtx) genOne(c *Contract, mine []*Contract, skipLoops bool) {
 	pkg := g.pkg
 	for once := true; once; once = false {
 		if c.IsIface {
@@ -1332,6 +1431,18 @@ func (g *genCtx) genOne(c *Contract, mine []*Contract) {
 			for _, cl := range c.CallsiteRequires[k] {
 				// resolved in the function's outermost block: parameters, results, function-level locals
 				g.compileClause(c, cl, si, body.Rbrace-1, "loop", "bool")
+			}
+		}
+		if skipLoops {
+			continue
+		}
+		c.Renames = nil
+		if len(c.Loops) > 0 {
+			c.CurLocals = g.localsOf(body, si)
+		}
+		if len(c.Locals) > 0 {
+			if rn := renamesOf(c.Locals, g.localsOf(body, si)); len(rn) > 0 {
+				c.Renames = rn
 			}
 		}
 		loops := loopsOf(body)
